@@ -116,6 +116,29 @@ theorem AcctInv.step {s : State} (h : AcctInv s) (hw : WorkerInv s) (st : Step) 
           exact h1.of_eq rfl rfl rfl rfl rfl rfl rfl
         · exact h1.of_eq rfl rfl rfl rfl rfl rfl rfl
       · exact h1
+  | executeF prio cb =>
+    simp only [valid, inCleanup, Bool.and_eq_true, Bool.not_eq_true', Bool.and_eq_false_iff, decide_eq_true_eq] at hv
+    simp only [Tbox.C05.step]
+    split
+    · exact h
+    · have hd : s.done = false := hv.1.1.2
+      have hph : s.phase1 = false := by
+        rcases hv.1.1.1.2 with hp | hp
+        · exact hp
+        · simp at hp; rw [hd] at hp; cases hp
+      constructor
+      · intro id hid
+        by_cases e : id = s.nextTask
+        · exact Or.inr (Or.inr (Or.inr (Or.inl ⟨_, List.mem_append_right _ List.mem_cons_self, e.symm⟩)))
+        · rcases h.cover id (by simp only at hid; omega) with a | a | a | a
+          · exact Or.inl a
+          · exact Or.inr (Or.inl a)
+          · exact Or.inr (Or.inr (Or.inl a))
+          · refine Or.inr (Or.inr (Or.inr ?_))
+            rcases a with ⟨u, hu, e'⟩ | a
+            · exact Or.inl ⟨u, List.mem_append_left _ hu, e'⟩
+            · exact Or.inr a
+      · intro hp; simp only at hp; rw [hph] at hp; cases hp
   | cancel id =>
     simp only [Tbox.C05.step]
     rcases cancelAns_cases s id with ⟨hc, hu⟩ | ⟨hc, _, _⟩ | hc
@@ -381,6 +404,11 @@ theorem JoinInv.step {s : State} (h : JoinInv s) (hw : WorkerInv s) (hl : LockIn
           · intro hd'; simp only [setPc_done] at hd'; exact absurd hd' hd
         · exact h.of_eq rfl rfl rfl rfl rfl rfl rfl rfl rfl
       · exact h.of_eq rfl rfl rfl rfl rfl rfl rfl rfl rfl
+  | executeF prio cb =>
+    simp only [Tbox.C05.step]
+    split
+    · exact h
+    · exact h.of_eq rfl rfl rfl rfl rfl rfl rfl rfl rfl
   | cancel id =>
     simp only [Tbox.C05.step]
     split
